@@ -28,28 +28,34 @@ Section Tree.
   Variable dlt : D -> D -> bool.               (* strict comparison of distances *)
   Variable select : list (St * option (nat * E)) -> I -> nat.   (* the tree node the iteration extends from (an index below the tree size):
                                                                    the nearest node to the target (RRT), a random node (RLRT) *)
-  Variable extend : St -> I -> option (St * E).
+  Variable extend : St -> I -> list (St * E).  (* the states to add, each hanging off the previous one (the first off the selected node),
+                                                  with the labels of the motions; [] = nothing to add *)
   Variable sat : St -> bool.                   (* goal->isSatisfied(state, &dist): verdict *)
   Variable gdist : St -> D.                    (*                                  and distance *)
   Variable dflt : St.
 
   Definition node := (St * option (nat * E))%type.   (* state, parent index and label of the motion from the parent *)
   Record rst := mkR { r_tree : list node; r_approx : option (nat * D); r_sol : option nat }.
+  (* one new motion below node [pi], with the goal test and the exact / approximate bookkeeping *)
+  Definition add_one (s : rst) (pi : nat) (x : St * E) : rst :=
+    let tree := r_tree s in
+    let idx := length tree in
+    let tree' := tree ++ [(fst x, Some (pi, snd x))] in
+    if sat (fst x) then mkR tree' (Some (idx, gdist (fst x))) (Some idx)
+    else match r_approx s with
+         | Some (_, bd) => if dlt (gdist (fst x)) bd then mkR tree' (Some (idx, gdist (fst x))) None else mkR tree' (r_approx s) None
+         | None => mkR tree' (Some (idx, gdist (fst x))) None
+         end.
+  (* a chain of new motions; it ends early at the first state that satisfies the goal *)
+  Fixpoint add_chain (s : rst) (pi : nat) (xs : list (St * E)) : rst :=
+    match r_sol s with
+    | Some _ => s
+    | None => match xs with [] => s | x :: t => add_chain (add_one s pi x) (length (r_tree s)) t end
+    end.
   Definition tree_step (s : rst) (i : I) : rst :=
     let tree := r_tree s in
     let ni := select tree i in
-    let nstate := fst (nth ni tree (dflt, None)) in
-    match extend nstate i with
-    | Some (dstate, e) =>
-      let idx := length tree in
-      let tree' := tree ++ [(dstate, Some (ni, e))] in
-      if sat dstate then mkR tree' (Some (idx, gdist dstate)) (Some idx)
-      else match r_approx s with
-           | Some (_, bd) => if dlt (gdist dstate) bd then mkR tree' (Some (idx, gdist dstate)) None else mkR tree' (r_approx s) None
-           | None => mkR tree' (Some (idx, gdist dstate)) None
-           end
-    | None => s
-    end.
+    add_chain s ni (extend (fst (nth ni tree (dflt, None))) i).
   Fixpoint tree_loop (s : rst) (ins : list I) : rst :=
     match r_sol s with
     | Some _ => s
@@ -110,14 +116,14 @@ Section Rrt.
   (* the geometric planners of the family: they differ in how the node to extend from is chosen *)
   Definition geo_solve (I : Type) (select : list (St * option (nat * unit)) -> I -> nat) (tg : I -> St) (starts : list St) (ins : list I)
     : list (St * option nat) * option (list St * bool * D) :=
-    let '(tree, rep) := tree_solve St D I unit dlt select (fun n i => rrt_extend n (tg i)) sat gdist dflt starts ins in
+    let '(tree, rep) := tree_solve St D I unit dlt select (fun n i => match rrt_extend n (tg i) with Some x => [x] | None => [] end) sat gdist dflt starts ins in
     (map (fun n => (fst n, option_map fst (snd n))) tree,
      match rep with Some (path, approx, dd) => Some (map snd path, approx, dd) | None => None end).
   Definition rrt_solve (starts : list St) (hits : list bool) (samples : list St) : list (St * option nat) * option (list St * bool * D) :=
     geo_solve St (fun tree r => nearest St D unit dist dlt tree r) (fun r => r) starts (targets hits samples).
   (* several solve() calls without clear(): each call has its own goal-bias draws and samples *)
   Definition rrt_calls (starts : list St) (calls : list (list bool * list St)) : list (St * option nat) * list (option (list St * bool * D)) :=
-    let '(tree, reps) := tree_calls St D St unit dlt (fun tree r => nearest St D unit dist dlt tree r) (fun n r => rrt_extend n r) sat gdist dflt [] starts (map (fun c => targets (fst c) (snd c)) calls) in
+    let '(tree, reps) := tree_calls St D St unit dlt (fun tree r => nearest St D unit dist dlt tree r) (fun n r => match rrt_extend n r with Some x => [x] | None => [] end) sat gdist dflt [] starts (map (fun c => targets (fst c) (snd c)) calls) in
     (map (fun n => (fst n, option_map fst (snd n))) tree,
      map (fun rep => match rep with Some (path, approx, dd) => Some (map snd path, approx, dd) | None => None end) reps).
 End Rrt.
@@ -154,7 +160,16 @@ Section CRrt.
     let '(c, k, st) := best_control St C stepf valid (fun x => dist x (fst i)) n (fst (snd i)) (snd (snd i)) in
     if (minDur <=? k)%nat then Some (st, (c, k)) else None.
   Definition crrt_solve (starts : list St) (ins : list citer) :=
-    tree_solve St Z citer (C * nat) Z.ltb (fun tree i => nearest St Z (C * nat) dist Z.ltb tree (fst i)) crrt_extend sat gdist dflt starts ins.
+    tree_solve St Z citer (C * nat) Z.ltb (fun tree i => nearest St Z (C * nat) dist Z.ltb tree (fst i))
+               (fun n i => match crrt_extend n i with Some x => [x] | None => [] end) sat gdist dflt starts ins.
+  (* with intermediate states: the control found by the directed sampler is propagated again step by step and every valid state
+     becomes a motion of one step; the chain ends at the first state that satisfies the goal *)
+  Definition crrti_extend (n : St) (i : citer) : list (St * (C * nat)) :=
+    let '(c, k, _) := best_control St C stepf valid (fun x => dist x (fst i)) n (fst (snd i)) (snd (snd i)) in
+    let ps := pwv_states St C stepf valid c k n in
+    if (minDur <=? length ps)%nat then map (fun s => (s, (c, 1%nat))) ps else [].
+  Definition crrti_solve (starts : list St) (ins : list citer) :=
+    tree_solve St Z citer (C * nat) Z.ltb (fun tree i => nearest St Z (C * nat) dist Z.ltb tree (fst i)) crrti_extend sat gdist dflt starts ins.
 End CRrt.
 
 (* the control instance run against the implementation: integer states, a control is the increment per step *)
@@ -162,3 +177,7 @@ Definition crrt_run (bad : list Z) (goal thr : Z) (minDur : nat) (starts : list 
   : list (Z * option (nat * (Z * nat))) * option (list (option (Z * nat) * Z) * bool * Z) :=
   crrt_solve Z Z (fun u x => (x + u)%Z) (zc_valid bad) (fun a b => Z.abs (a - b)) (fun s => (Z.abs (s - goal) <? thr)%Z) (fun s => Z.abs (s - goal)) 0%Z minDur starts
              (combine (targets Z goal 0%Z hits samples) cands).
+Definition crrti_run (bad : list Z) (goal thr : Z) (minDur : nat) (starts : list Z) (hits : list bool) (samples : list Z) (cands : list ((Z * nat) * list (Z * nat)))
+  : list (Z * option (nat * (Z * nat))) * option (list (option (Z * nat) * Z) * bool * Z) :=
+  crrti_solve Z Z (fun u x => (x + u)%Z) (zc_valid bad) (fun a b => Z.abs (a - b)) (fun s => (Z.abs (s - goal) <? thr)%Z) (fun s => Z.abs (s - goal)) 0%Z minDur starts
+              (combine (targets Z goal 0%Z hits samples) cands).
